@@ -378,9 +378,13 @@ pub fn finish(meta: Meta, mut st: Stats, started: Instant) -> i32 {
         "wall_s": wall,
         "violations": new_violations,
     });
-    let evdir = meta.root.join("evidence");
+    // sanitizer legs write their own file (merged into the main evidence by ./check)
+    let (evdir, evname) = match std::env::var("VERIF_LEG") {
+        Ok(leg) => (meta.root.join("evidence").join("legs"), format!("{}.{}.json", meta.id, leg)),
+        Err(_) => (meta.root.join("evidence"), format!("{}.json", meta.id)),
+    };
     let _ = std::fs::create_dir_all(&evdir);
-    let evpath = evdir.join(format!("{}.json", meta.id));
+    let evpath = evdir.join(evname);
     let _ = std::fs::write(&evpath, serde_json::to_string_pretty(&ev).unwrap());
 
     for l in &lines {
